@@ -14,7 +14,7 @@ OBLIGATIONS = ['Cvise.C01.runPass_safe', 'Cvise.C02.reduce_schedule_irrelevant',
 def scens(ctx, n, files=(1,)):
     out = []
     bias = {'files': list(files), 'p_contract': 0.7, 'p_cache': 1.0, 'max_passes': 3, 'p_faults': 0.0, 'p_small_consts': 0.0,
-            'p_twin': 0.4, 'p_own_rank': 0.5}
+            'p_twin': 0.4, 'p_own_rank': 0.5, 'p_fmt': 0.35}
     while len(out) < n:
         s = D.gen_scenario(ctx.rng, bias)
         s['faults'] = {}
